@@ -349,6 +349,9 @@ def compare_stack(ctx, stream, ops, connects, token, key, note=None):
         peer_closed = {f"x{c}" for c, i, d, v in res["rx"] if v == "close"}
         mlog = [e for e in mevs if not e.split(":", 1)[1].startswith(("a", "f")) and e.split(":", 1)[1] not in peer_closed]
         mdev = mdev.replace("|", " ")
+        import devrun as _dr
+        canon_c, mdev = _dr.mask_unknown(res["canon"], mdev)
+        res["canon"] = canon_c
         if mouts != res["outcomes"] or mlog != ilog or mdev != res["canon"]:
             first = next((i for i, (a, b) in enumerate(zip(mlog, ilog)) if a != b), min(len(mlog), len(ilog)))
             dd = [(a, b) for a, b in zip(mdev.split(" "), res["canon"].split(" ")) if a != b]
